@@ -36,7 +36,7 @@ theorem wt_simple_mono {vtys : List CSem.Ty} {ret : CSem.Ty} {st : Stmt} (hs : s
       rw [if_pos (take_mono_wt hle e hw)]
     · cases h
 
-theorem frag_simple (P : List CSem2.Func) {st : Stmt} (hs : st.isSimple = true) : frag P st = true := by
+theorem frag_simple (P : List CSem2.Func) (cnts : List Nat) {st : Stmt} (hs : st.isSimple = true) : frag P cnts st = true := by
   cases st <;> simp only [Stmt.isSimple, Bool.false_eq_true] at hs <;> rfl
 
 section
@@ -47,7 +47,7 @@ variable (T : Stat) {s : Store} {out : CSem2.Outcome} {lp : Bool × Bool} {brk c
     given by `hhead`. -/
 theorem sim_for_core (n : Nat) (ih : ∀ m, m ≤ n → SimStmt T m) (e : Option Expr) (step b : Stmt)
     (hd : List Item × SCtx)
-    (hex : exec T.S.cs T.P (n + 1) s (.for_ e step b) = some out) (hfs : frag T.P step = true) (hfb : frag T.P b = true)
+    (hex : exec T.S.cs T.P (n + 1) s (.for_ e step b) = some out) (hfs : frag T.P T.cnts step = true) (hfb : frag T.P T.cnts b = true)
     (hsimple : step.isSimple = true) {n2 : Nat}
     (hwb : Stmt.wt T.vtys T.ret true true nd b = some nd') (hws : Stmt.wt T.vtys T.ret false false nd step = some n2)
     (hp : Pos T c nd pre)
@@ -69,12 +69,12 @@ theorem sim_for_core (n : Nat) (ih : ∀ m, m ≤ n → SimStmt T m) (e : Option
       ∀ (s : Store) (env : Env) (M : Mem) (v : Int),
       (match e with
         | some e => evalE T.S.cs s e
-        | none => some 1) = some v → SInv T.M0 T.S.cs T.σ T.vtys s env M →
+        | none => some 1) = some v → SInv T.M0 T.S.cs T.cnts T.σ T.vtys s env M →
       ∃ k env' st, T.Reach k (T.at env M (pre ++ [.lbl none (lblName "for_cond" (c.blockid + 1)) []])) st ∧
-        SInv T.M0 T.S.cs T.σ T.vtys s env' M ∧
+        SInv T.M0 T.S.cs T.cnts T.σ T.vtys s env' M ∧
         (if v ≠ 0 then st = T.at env' M (pre ++ [.lbl none (lblName "for_cond" (c.blockid + 1)) []] ++ hd.1)
          else AtLabel T.S (lblName "for_join" (c.blockid + 4)) env' M st))
-    (inv : SInv T.M0 T.S.cs T.σ T.vtys s env M) :
+    (inv : SInv T.M0 T.S.cs T.cnts T.σ T.vtys s env M) :
     Post T lp brk cont (T.at env M pre)
       (pre ++ ([labelItem c (lblName "for_cond" (c.blockid + 1))] ++ hd.1 ++
       (funcstmt T.S.cs (lblName "for_join" (c.blockid + 4)) (lblName "for_cont" (c.blockid + 3)) b hd.2).items ++
@@ -143,7 +143,7 @@ theorem sim_for_core (n : Nat) (ih : ∀ m, m ≤ n → SimStmt T m) (e : Option
     rw [hitsJ]
   -- iterations, entered at `for_cond`
   have hQ : ∀ k, k ≤ n → ∀ (s : Store) (env : Env) (M : Mem) (out : CSem2.Outcome),
-      exec T.S.cs T.P (k + 1) s (.for_ e step b) = some out → SInv T.M0 T.S.cs T.σ T.vtys s env M →
+      exec T.S.cs T.P (k + 1) s (.for_ e step b) = some out → SInv T.M0 T.S.cs T.cnts T.σ T.vtys s env M →
       Done T lp brk cont (T.at env M (pre ++ [.lbl none (lblName "for_cond" (c.blockid + 1)) []]))
         (((pre ++ [.lbl none (lblName "for_cond" (c.blockid + 1)) []] ++ hd.1 ++ ob.items) ++
           [.lbl ob.ctx.jump (lblName "for_cont" (c.blockid + 3)) []] ++ os.items) ++
@@ -187,7 +187,7 @@ theorem sim_for_core (n : Nat) (ih : ∀ m, m ≤ n → SimStmt T m) (e : Option
             (match exec T.S.cs T.P (k + 1) s' step with
               | some (.normal s'') => exec T.S.cs T.P (k + 1) s'' (.for_ e step b)
               | _ => none) = some out →
-            SInv T.M0 T.S.cs T.σ T.vtys s' env' M' →
+            SInv T.M0 T.S.cs T.cnts T.σ T.vtys s' env' M' →
             Done T lp brk cont (T.at env' M' ((pre ++ [.lbl none (lblName "for_cond" (c.blockid + 1)) []] ++
               hd.1 ++ ob.items) ++ [.lbl ob.ctx.jump (lblName "for_cont" (c.blockid + 3)) []]))
               (((pre ++ [.lbl none (lblName "for_cond" (c.blockid + 1)) []] ++ hd.1 ++ ob.items) ++
@@ -256,11 +256,11 @@ theorem sim_for_core (n : Nat) (ih : ∀ m, m ≤ n → SimStmt T m) (e : Option
   exact this
 
 theorem sim_for (n : Nat) (ih : ∀ m, m ≤ n → SimStmt T m) (e : Option Expr) (step b : Stmt)
-    (hex : exec T.S.cs T.P (n + 1) s (.for_ e step b) = some out) (hfr : frag T.P (.for_ e step b) = true)
+    (hex : exec T.S.cs T.P (n + 1) s (.for_ e step b) = some out) (hfr : frag T.P T.cnts (.for_ e step b) = true)
     (hwt : Stmt.wt T.vtys T.ret lp.1 lp.2 nd (.for_ e step b) = some nd') (hp : Pos T c nd pre)
     (hext : Ext T (funcstmt T.S.cs brk cont (.for_ e step b) c).ctx)
     (hits : T.S.its = pre ++ (funcstmt T.S.cs brk cont (.for_ e step b) c).items ++ post)
-    (inv : SInv T.M0 T.S.cs T.σ T.vtys s env M) :
+    (inv : SInv T.M0 T.S.cs T.cnts T.σ T.vtys s env M) :
     Post T lp brk cont (T.at env M pre) (pre ++ (funcstmt T.S.cs brk cont (.for_ e step b) c).items)
       (funcstmt T.S.cs brk cont (.for_ e step b) c).ctx out := by
   simp only [frag, Bool.and_eq_true] at hfr
